@@ -61,6 +61,8 @@ type c09Case struct {
 	Query    []c09KV       `json:"query,omitempty"`
 	RawTail  string        `json:"raw_tail,omitempty"` // appended verbatim to the encoded query string (malformed pairs: `&x=%zz`, `;a=1` …)
 	Header   []c09KV       `json:"header,omitempty"`
+	Junk     int           `json:"junk,omitempty"`       // that many unrelated keys (`junk-0000` …, value `j`) in FRONT of the keys of the source under test: path params (param), URL query (query / bind without form body), headers (header), body pairs (form / multipart bodies)
+	RawHdr   bool          `json:"raw_header,omitempty"` // header names are put into the request's map as spelled (tests, middlewares, gateways do that); default: canonical MIME form, as net/http reads them from the wire
 	CType    string        `json:"ctype,omitempty"`
 	BodyKind string        `json:"body_kind,omitempty"` // none | raw | form | multipart
 	Body     string        `json:"body,omitempty"`      // raw
@@ -156,7 +158,20 @@ type c09CatFilePlain struct {
 	After  string               `form:"after" query:"after"`
 }
 
+// tags that differ only in their separator (`-`, `_`, `.`) or have none: a key equals a tag under case
+// folding and nothing else — `X_Is_Admin` is not `X-Is-Admin`, `x_id` is not `x-id`
+type c09CatSeparators struct {
+	Dash     bool   `header:"X-Is-Admin" query:"is-admin" form:"is-admin" param:"is-admin"`
+	Under    string `header:"x_legacy_id" query:"legacy_id" form:"legacy_id" param:"legacy_id"`
+	Dot      string `header:"x.trace" query:"trace.id" form:"trace.id" param:"trace.id"`
+	Plain    int    `header:"userid" query:"userid" form:"userid" param:"userid"`
+	Both1    string `header:"x-id" query:"x-id" form:"x-id" param:"x-id"`
+	Both2    string `header:"x_id" query:"x_id" form:"x_id" param:"x_id"`
+	Untagged string
+}
+
 var c09Catalogue = map[string]reflect.Type{
+	"separators":      reflect.TypeOf(c09CatSeparators{}),
 	"embedded":        reflect.TypeOf(c09CatEmbedded{}),
 	"embedded-ptr":    reflect.TypeOf(c09CatEmbeddedPtr{}),
 	"embedded-tagged": reflect.TypeOf(c09CatEmbeddedTagged{}),
@@ -168,7 +183,7 @@ var c09Catalogue = map[string]reflect.Type{
 	"file-plain":      reflect.TypeOf(c09CatFilePlain{}),
 }
 
-var c09CatNames = []string{"embedded", "embedded-ptr", "embedded-tagged", "unexported", "unmarshalers", "map-field", "mass", "files", "file-plain"}
+var c09CatNames = []string{"embedded", "embedded-ptr", "embedded-tagged", "unexported", "unmarshalers", "map-field", "mass", "files", "file-plain", "separators"}
 
 var (
 	c09FilePtrT      = reflect.TypeOf((*multipart.FileHeader)(nil))
@@ -893,7 +908,10 @@ func c09HeaderMap(c *c09Case) map[string][]string {
 	m := map[string][]string{}
 	for _, kv := range c.Header {
 		if len(kv.V) > 0 {
-			k := http.CanonicalHeaderKey(kv.K)
+			k := kv.K
+			if !c.RawHdr {
+				k = http.CanonicalHeaderKey(k)
+			}
 			m[k] = append(m[k], kv.V...)
 		}
 	}
@@ -945,6 +963,26 @@ func c09Decoded(c *c09Case, t reflect.Type, kind string) (out string) {
 	return wBool(err == nil) + " " + c09DValWire(c, d.Elem())
 }
 
+// c09RefDecodes: does the strict decoder of the standard library accept these bytes for a destination of this type
+// (fresh value; no path / query step before — which key of a fold-ambiguous key set those steps pick is up to Go's map
+// order, the verdict on the document must not depend on it)
+func c09RefDecodes(c *c09Case, t reflect.Type, kind, body string) (ok bool) {
+	defer func() {
+		if p := recover(); p != nil {
+			ok = false
+		}
+	}()
+	d := c09NewDest(c, t)
+	if kind == "json" {
+		dec := json.NewDecoder(strings.NewReader(body))
+		if c.Serial == "strict" {
+			dec.DisallowUnknownFields()
+		}
+		return dec.Decode(d.Interface()) == nil
+	}
+	return xml.NewDecoder(strings.NewReader(body)).Decode(d.Interface()) == nil
+}
+
 func c09OptData(d map[string][]string, ok bool) string {
 	if !ok {
 		return "0"
@@ -989,8 +1027,32 @@ func c09MapEntries(v reflect.Value) map[string]string {
 	return out
 }
 
+// c09ExpandJunk: the case with its Junk keys written out
+func c09ExpandJunk(c *c09Case) *c09Case {
+	d := *c
+	d.Junk = 0
+	junk := make([]c09KV, 0, c.Junk)
+	for i := 0; i < c.Junk; i++ {
+		junk = append(junk, c09KV{K: fmt.Sprintf("junk-%04d", i), V: []string{"j"}})
+	}
+	switch {
+	case c.Op == "param":
+		d.Params = append(junk, c.Params...)
+	case c.Op == "header":
+		d.Header = append(junk, c.Header...)
+	case c.Op != "query" && (c.BodyKind == "form" || c.BodyKind == "multipart"):
+		d.Form = append(junk, c.Form...)
+	default:
+		d.Query = append(junk, c.Query...)
+	}
+	return &d
+}
+
 func c09Run(ci any) (res Result) {
 	c := ci.(*c09Case)
+	if c.Junk > 0 {
+		c = c09ExpandJunk(c)
+	}
 	t, err := c09DestType(c)
 	if err != nil {
 		return Result{Tags: []string{"bad-spec"}}
@@ -1245,6 +1307,35 @@ func c09Run(ci any) (res Result) {
 
 	// ---- model-free oracle
 	nontrivial := false
+	if n := len(params) + len(query) + len(header) + len(formBody) + len(mpBody); n > 256 {
+		tags = append(tags, "many-keys:257+")
+		if n > 1024 {
+			tags = append(tags, "many-keys:1025+")
+		}
+	}
+	if len(c.Header) > 0 && bodyStep {
+		tags = append(tags, "bind-with-headers") // Bind / BindBody never look at header data
+	}
+	if c.RawHdr && len(c.Header) > 0 {
+		tags = append(tags, "header:raw-names")
+	}
+	if decodedBody {
+		// malformed input is a 400 whoever decodes it and under whichever spelling of the media type:
+		// a document that the (strict) decoder of the standard library rejects must not be accepted,
+		// wholly or — worse — up to the defect
+		kind := "xml"
+		if mt == "application/json" {
+			kind = "json"
+		}
+		tags = append(tags, "decoded:"+mt)
+		if !c09RefDecodes(c, t, kind, bodyStr) {
+			tags = append(tags, "decoded-malformed:"+kind)
+			nontrivial = true
+			if berr == nil {
+				fail("%s body %q (Content-Type %q): encoding/%s rejects it (malformed, or not a document for this destination) but binding returned no error", kind, c09Clip(bodyStr), c.CType, kind)
+			}
+		}
+	}
 	if isStruct {
 		var after []c09Leaf
 		c09Leaves(dst.Elem(), "", c09AllReach(), &after)
@@ -1284,6 +1375,9 @@ func c09Run(ci any) (res Result) {
 					mayChange = true
 				} else if c09NearMissKey(d, b.Tags[s]) {
 					nearMiss = true
+				} else if c09SeparatorMissKey(d, b.Tags[s]) {
+					nearMiss = true
+					tags = append(tags, "separator-variant-key:"+s)
 				}
 			}
 			// uploaded files reach a file field only under the exact name of its form tag
@@ -1492,6 +1586,13 @@ func c09Run(ci any) (res Result) {
 		}
 	}
 	return Result{Ops: line, Obs: obs, Oracle: oracle, Tags: tags, Nontrivial: nontrivial}
+}
+
+func c09Clip(s string) string {
+	if len(s) > 160 {
+		return s[:160] + "…"
+	}
+	return s
 }
 
 // some key of d is not equal to tag under folding but contains it (tag plus an affix such as
